@@ -85,7 +85,7 @@ def gen_model(r, *, budget=6000, max_T=4, force=None):
     if "stoch3" in force:
         n_ds = 3
         n_cs = min(n_cs, 1)
-    if "log" in force:
+    if force & {"log", "cs"}:
         n_cs = max(n_cs, 1)
     names = NAMES[:]
     r.shuffle(names)
